@@ -7,10 +7,11 @@
  *   M: mask canvas g_mimg, pixel (g_mx,g_my), value g_mr..                                        (never written)
  * A statement proved for symbolic ghost coordinates is the universally quantified statement over all pixels.
  *
- * read_pixel / write_pixel carry here the contract every loop above them is proved against (they are bound with
- * --replace-call-with-contract).  The very same clause macros (WP_EXC, WP_PIX, RP_PIX) are the postconditions of the
- * memory-level obligations of contracts/C07_pixel_mem.h, with "ghost value" instantiated by "the channels decoded from
- * the pixel buffer at (gx,gy)": that is the link between the two levels.
+ * read_pixel / write_pixel carry here the contract every loop above them is proved against.  In the loop proofs they are bound to the
+ * canonical model of that contract (stubs/C07_pixel_model.h: havoc the assigns clause, assume the ensures clauses; the groups
+ * Image.model.* enforce the contract on the model).  The very same clause macros (WP_EXC, WP_PIX, RP_PIX, contracts/C07_clauses.h) are the
+ * postconditions of the memory-level obligations of contracts/C07_pixel_mem.h, with "ghost value" instantiated by "the channels decoded
+ * from the pixel buffer at (gx,gy)": that is the link between the two levels.
  *
  * Specification sources: the property statement (which pixels change, never out_of_range, everything else untouched);
  * the per-variant colour rules *_R/_G/_B/_A below pin the arithmetic of the pinned commit where neither the statement nor
@@ -64,13 +65,15 @@ __CPROVER_ensures(WP_PIX(self, x, y, C_R(color), C_G(color), C_B(color), C_A(col
 __CPROVER_assigns(verif_exc, g_dr, g_dg, g_db, g_da);
 
 /* ================= preconditions of the canvas operations ================= */
-/* destination: a valid canvas; the ghost pixel D lies inside it and holds a well-formed value */
+/* destination: a valid canvas; the symbolic pixel D holds a well-formed value.  D may lie outside the canvas (then nothing may happen to it:
+ * this also covers empty canvases); D_IN says it is a pixel of the canvas */
+#define D_IN (!OUTSIDE(self, g_dx, g_dy))
 /* (one small clause per fact: long conjunctions in a single requires clause were observed to fail spuriously when the contract replaces a call) */
 #define DST_REQ(self) \
   __CPROVER_requires(__CPROVER_is_fresh(g_dimg, sizeof(Image))) \
   __CPROVER_requires(self == g_dimg) __CPROVER_requires(verif_exc == 0) __CPROVER_requires(IMG_VALID(self)) \
   __CPROVER_requires(SHAPE_IS(self, g_dw, g_dh, g_dalpha, g_dcw)) \
-  __CPROVER_requires(!OUTSIDE(self, g_dx, g_dy)) __CPROVER_requires(GHOST_WF(self, g_dr, g_dg, g_db, g_da))
+  __CPROVER_requires(COORD_OK(g_dx) && COORD_OK(g_dy)) __CPROVER_requires(GHOST_WF(self, g_dr, g_dg, g_db, g_da))
 /* source: a valid canvas distinct from the destination; S is "the source pixel that feeds D" (it may lie outside the source) */
 #define SRC_REQ(source) \
   __CPROVER_requires(__CPROVER_is_fresh(g_simg, sizeof(Image))) \
@@ -394,7 +397,7 @@ __CPROVER_requires(COORD_OK(x) && COORD_OK(y) && COORD_OK(w) && COORD_OK(h))
 __CPROVER_requires(g_tup_ok ==> FILL_TUP(g_dr, g_dg, g_db, g_da))
 DEF_REQ(TUP_DEF8)
 __CPROVER_ensures(verif_exc == 0)
-__CPROVER_ensures(INRECT(g_dx, g_dy, x, y, w, h) ? (FILL_COND ==> D4_RULE(FILL)) : D4_OLD)
+__CPROVER_ensures((D_IN && INRECT(g_dx, g_dy, x, y, w, h)) ? (FILL_COND ==> D4_RULE(FILL)) : D4_OLD)
 __CPROVER_ensures(GHOST_WF(self, g_dr, g_dg, g_db, g_da))
 __CPROVER_assigns(D_ASSIGNS);
 
@@ -408,13 +411,13 @@ __CPROVER_requires(COORD_OK(x) && COORD_OK(y) && COORD_OK(w) && COORD_OK(h))
 __CPROVER_requires(g_tup_ok ==> FILL_TUP(g_dr, g_dg, g_db, g_da))
 DEF_REQ(TUP_DEF8)
 __CPROVER_ensures(verif_exc == 0)
-__CPROVER_ensures(INRECT(g_dx, g_dy, x, y, w, h) ? (FILL_COND ==> D4_RULE(FILL)) : D4_OLD)
+__CPROVER_ensures((D_IN && INRECT(g_dx, g_dy, x, y, w, h)) ? (FILL_COND ==> D4_RULE(FILL)) : D4_OLD)
 __CPROVER_ensures(GHOST_WF(self, g_dr, g_dg, g_db, g_da))
 __CPROVER_assigns(D_ASSIGNS);
 void Image_clear_c(Image* self, uint32_t c)
 DST_REQ(self)
 __CPROVER_ensures(verif_exc == 0)
-__CPROVER_ensures(D4_RULE(CLEAR))
+__CPROVER_ensures(D_IN ? D4_RULE(CLEAR) : D4_OLD)
 __CPROVER_assigns(D_ASSIGNS);
 #undef r
 #undef g
@@ -424,7 +427,7 @@ __CPROVER_assigns(D_ASSIGNS);
 void Image_clear(Image* self, uint64_t r, uint64_t g, uint64_t b, uint64_t a)
 DST_REQ(self)
 __CPROVER_ensures(verif_exc == 0)
-__CPROVER_ensures(D4_RULE(CLEAR))
+__CPROVER_ensures(D_IN ? D4_RULE(CLEAR) : D4_OLD)
 __CPROVER_assigns(D_ASSIGNS);
 
 /* ================= blits ================= */
@@ -432,7 +435,7 @@ __CPROVER_assigns(D_ASSIGNS);
  * the requested rectangle (and, as DST_REQ says for D, inside the destination) and its source pixel (sx+px-x, sy+py-y) inside the source */
 #define BW(w, source) ((w) < 0 ? (source)->width : (w))
 #define BH(h, source) ((h) < 0 ? (source)->height : (h))
-#define BLIT_HITS (INRECT(g_dx, g_dy, x, y, BW(w, source), BH(h, source)) && !OUTSIDE(source, g_sx, g_sy))
+#define BLIT_HITS (D_IN && INRECT(g_dx, g_dy, x, y, BW(w, source), BH(h, source)) && !OUTSIDE(source, g_sx, g_sy))
 #define BLIT_ENS(n) \
   __CPROVER_ensures(verif_exc == 0) \
   __CPROVER_ensures(BLIT_HITS ? D4_RULE(n) : D4_OLD) \
@@ -520,7 +523,7 @@ BLIT_ENS(CB64);
 void Image_invert(Image* self)
 DST_REQ(self)
 __CPROVER_ensures(verif_exc == 0)
-__CPROVER_ensures(D4_RULE(INVERT))
+__CPROVER_ensures(D_IN ? D4_RULE(INVERT) : D4_OLD)
 __CPROVER_assigns(D_ASSIGNS);
 
 /* set_alpha_from_mask_color: colour channels kept; alpha := 0 where the pixel has the key colour, max_value elsewhere */
@@ -535,7 +538,7 @@ __CPROVER_assigns(D_ASSIGNS);
 void Image_set_alpha_from_mask_color(Image* self, uint64_t r, uint64_t g, uint64_t b)
 DST_REQ(self)
 __CPROVER_ensures(verif_exc == 0)
-__CPROVER_ensures(D4_RULE(ALPHAKEY))
+__CPROVER_ensures(D_IN ? D4_RULE(ALPHAKEY) : D4_OLD)
 __CPROVER_assigns(D_ASSIGNS);
 #define r C_R(c)
 #define g C_G(c)
@@ -543,7 +546,7 @@ __CPROVER_assigns(D_ASSIGNS);
 void Image_set_alpha_from_mask_color_c(Image* self, uint32_t c)
 DST_REQ(self)
 __CPROVER_ensures(verif_exc == 0)
-__CPROVER_ensures(D4_RULE(ALPHAKEY))
+__CPROVER_ensures(D_IN ? D4_RULE(ALPHAKEY) : D4_OLD)
 __CPROVER_assigns(D_ASSIGNS);
 #undef r
 #undef g
@@ -556,8 +559,8 @@ __CPROVER_assigns(D_ASSIGNS);
   __CPROVER_requires(g_ex == (ex) && g_ey == (ey)) __CPROVER_requires(GHOST_WF(self, g_er, g_eg, g_eb, g_ea)) \
   __CPROVER_requires((g_ex == g_dx && g_ey == g_dy) ==> E4(g_dr, g_dg, g_db, g_da))
 #define SWAP_ENS __CPROVER_ensures(verif_exc == 0) \
-  __CPROVER_ensures(D4(__CPROVER_old(g_er), __CPROVER_old(g_eg), __CPROVER_old(g_eb), __CPROVER_old(g_ea))) \
-  __CPROVER_ensures(E4(OLD_DR, OLD_DG, OLD_DB, OLD_DA)) \
+  __CPROVER_ensures(D_IN ? D4(__CPROVER_old(g_er), __CPROVER_old(g_eg), __CPROVER_old(g_eb), __CPROVER_old(g_ea)) : D4_OLD) \
+  __CPROVER_ensures(D_IN ? E4(OLD_DR, OLD_DG, OLD_DB, OLD_DA) : E4(__CPROVER_old(g_er), __CPROVER_old(g_eg), __CPROVER_old(g_eb), __CPROVER_old(g_ea))) \
   __CPROVER_assigns(D_ASSIGNS, g_er, g_eg, g_eb, g_ea)
 void Image_reverse_horizontal(Image* self)
 PAIR_REQ(self, self->width - 1 - g_dx, g_dy) SWAP_ENS;
@@ -622,6 +625,31 @@ VLINE_ENS;
 #undef g
 #undef b
 #undef a
+/* draw_line (Bresenham with a double-precision error term): decided here for ANY end points: out_of_range never escapes, a pixel that
+ * changes gets exactly the colour (frame).  Which pixels form the path is not decided (floating point), see props/C07.py NOT_DECIDED. */
+void Image_draw_line(Image* self, ssize_t x0, ssize_t y0, ssize_t x1, ssize_t y1, uint64_t r, uint64_t g, uint64_t b, uint64_t a)
+DST_REQ(self)
+__CPROVER_requires(COORD_OK(x0) && COORD_OK(y0) && COORD_OK(x1) && COORD_OK(y1))
+__CPROVER_ensures(verif_exc == 0)
+__CPROVER_ensures(D4_OLD || COLOURED)
+__CPROVER_assigns(D_ASSIGNS);
+#define r C_R(c)
+#define g C_G(c)
+#define b C_B(c)
+#define a C_A(c)
+void Image_draw_line_c(Image* self, ssize_t x0, ssize_t y0, ssize_t x1, ssize_t y1, uint32_t c)
+DST_REQ(self)
+__CPROVER_requires(COORD_OK(x0) && COORD_OK(y0) && COORD_OK(x1) && COORD_OK(y1))
+__CPROVER_ensures(verif_exc == 0)
+__CPROVER_ensures(D4_OLD || COLOURED)
+__CPROVER_assigns(D_ASSIGNS);
+#undef r
+#undef g
+#undef b
+#undef a
+/* its outlined slope expression (double)dy / (double)dx: an unconstrained double in the loop proof (it only steers the path) */
+double x_line_slope(ssize_t dy, ssize_t dx);
+
 /* the outlined dash selector x / dash_length: only its freedom from undefined behaviour matters (it selects a branch) */
 ssize_t x_h_div1(ssize_t x, ssize_t dash_length)
 __CPROVER_requires(dash_length != 0 && COORD_OK(x) && COORD_OK(dash_length))
@@ -701,7 +729,7 @@ void L_fill_rect_rule(Image* self, ssize_t x, ssize_t y, ssize_t w, ssize_t h, u
 DST_REQ(self)
 __CPROVER_requires(COORD_OK(x) && COORD_OK(y) && COORD_OK(w) && COORD_OK(h))
 __CPROVER_ensures(verif_exc == 0)
-__CPROVER_ensures(INRECT(g_dx, g_dy, x, y, w, h) ? D4_RULE(XFILL) : D4_OLD)
+__CPROVER_ensures((D_IN && INRECT(g_dx, g_dy, x, y, w, h)) ? D4_RULE(XFILL) : D4_OLD)
 __CPROVER_assigns(D_ASSIGNS, TUP_GHOSTS);
 #define L_BLIT_RULE(name, n, extra) void name(BLIT_PARAMS extra) BLIT_REQ(self, source) \
   __CPROVER_ensures(verif_exc == 0) __CPROVER_ensures(BLIT_HITS ? D4_RULE(n) : D4_OLD) __CPROVER_assigns(D_ASSIGNS, CLAMP_GHOSTS, TUP_GHOSTS);
